@@ -165,7 +165,8 @@ def _closing_recheck(ctx, g, q, after_nodes, buf_attrs):
 
 def structural(ctx0):
     ctx = SCtx(ctx0)
-    VCH = Normaliser(ctx.mod(CH), ["SSHChannel"], set(), presplit=True).view
+    _NCH = Normaliser(ctx.mod(CH), ["SSHChannel"], set(), presplit=True)
+    VCH = _NCH.view
     VCO = Normaliser(ctx.mod(CO), ["SSHConnection"], set(), subscripts=False, presplit=True).view
     _ok_w = False; _ok_wl = False; _ok_x = False; _ok_aw = False; _ok_cn = False; _ok_sm = False; loop = bound = None
     with abstain(ctx0, 's/write/anchors', SENDER):
@@ -538,7 +539,12 @@ def structural(ctx0):
         ctx.floor("close/sent-from-loseConnection", n_close, 1)
     with abstain(ctx0, 's/closing-writers', SENDER):
         cls = ctx.cls(CH, "SSHChannel")
-        for name, fn in methods(cls).items():
+        views_ = {name: VCH(fn) for name, fn in methods(cls).items()}
+        for name, fn in views_.items():
+            if name in _NCH.expanded_cms and name.startswith("_") and not any(
+                    isinstance(c, ast.Call) and call_name(c) == f"self.{name}" and not isinstance(getattr(c, "_parent", None), ast.withitem)
+                    for f2 in methods(cls).values() for c in ast.walk(f2)):
+                continue        # a private context manager used only in `with` statements: read at those sites (expanded in the views)
             for st in statements(fn):
                 if isinstance(st, (ast.Assign, ast.AugAssign)) and any(self_attr(t, "closing") for t in (st.targets if isinstance(st, ast.Assign) else [st.target])):
                     if name in ("__init__", "loseConnection"):
@@ -660,15 +666,20 @@ def structural(ctx0):
                         break
             ctx.ok("receive/replenish-only-threshold-suppresses", q)
             # payload offset: the length prefix of the NS is the last header field
-            gn = [st for st in statements(f) if isinstance(st, ast.Assign) and "getNS" in src(st.value)]
-            ctx.need(gn, f"{hname}: data = common.getNS(packet[off:])[0]")
-            inner = [c for c in ast.walk(gn[0].value) if isinstance(c, ast.Call) and call_attr(c) == "getNS"][0]
+            inners = [c for c in ast.walk(f) if isinstance(c, ast.Call) and call_attr(c) == "getNS"]
+            ctx.need(len(inners) == 1, f"{hname}: one common.getNS(packet[off:]) call")
+            inner = inners[0]
+            gn = [st for st in statements(f) if isinstance(st, ast.Assign) and any(c is inner for c in ast.walk(st.value))]
+            inline = isinstance(getattr(inner, "_parent", None), ast.Subscript) and src(inner._parent.slice) == "0" and not gn
+            ctx.need(gn or inline, f"{hname}: data = common.getNS(packet[off:])[0] (or the same expression handed on directly)")
             sp = _slice_parts(inner.args[0])
             off = struct.calcsize(fmt) - 4
-            ctx.check(sp is not None and src(sp[0]) == pk and sp[2] is None and sp[1] is not None and src(sp[1]) == str(off), "receive/payload-offset", ctx.construct(q, gn[0]),
+            ctx.check(sp is not None and src(sp[0]) == pk and sp[2] is None and sp[1] is not None and src(sp[1]) == str(off), "receive/payload-offset", ctx.construct(q, gn[0] if gn else inner),
                       f"the data string is read from offset {src(sp[1]) if sp and sp[1] is not None else '?'}; its length prefix ({DL}) is at offset {off}")
-            gv = gn[0].value
-            if isinstance(gv, ast.Subscript) and gv.value is inner and src(gv.slice) == "0":
+            gv = gn[0].value if gn else None
+            if inline:
+                dv = [src(inner._parent)]
+            elif isinstance(gv, ast.Subscript) and gv.value is inner and src(gv.slice) == "0":
                 dv = [src(t) for t in gn[0].targets]
             elif gv is inner and len(gn[0].targets) == 1 and isinstance(gn[0].targets[0], (ast.Tuple, ast.List)) and gn[0].targets[0].elts:
                 dv = [src(gn[0].targets[0].elts[0])]
